@@ -26,7 +26,7 @@ type typedPath struct {
 
 // schemaTypedPaths walks /repo/schema/compose-spec.json for positions that admit a string next to a typed value.
 func schemaTypedPaths() ([]typedPath, error) {
-	b, err := os.ReadFile("/repo/schema/compose-spec.json")
+	b, err := os.ReadFile(core.RepoRoot+"/schema/compose-spec.json")
 	if err != nil {
 		return nil, err
 	}
